@@ -375,22 +375,18 @@ theorem c08_seqhdr_witness :
   set_option maxRecDepth 100000 in decide
 
 /-- The joiner's timeline at the current tree's writer configuration: when a consumer joins an
-    FLV stream whose cached GOP starts with `g0`, the first tag its writer is handed becomes the
-    time base and every replayed header tag and `g0` go on the wire with timestamp 0 (the cache
-    side of this statement is `c02_flv_timeline_starts_at_zero`). -/
-theorem c08_joiner_timeline_zero (gop : Bool) (tags : List IpcHub.FlvCacheM.FTag)
-    (g0 : IpcHub.FlvCacheM.FTag) (rest : List IpcHub.FlvCacheM.FTag)
-    (hg : (IpcHub.FlvCacheM.cacheAfter gop tags).gop = g0 :: rest) :
-    ∀ t ∈ (IpcHub.FlvCacheM.cacheAfter gop tags).headers ++ [g0],
-      IpcHub.FlvCacheM.wireTs genCfg { delta := UInt32.ofNat g0.ts, started := true }
-        (IpcHub.FlvCacheM.toTag t) = 0 := by
-  intro t ht
-  apply IpcHub.FlvCacheM.same_ts_zero
-  simp only [List.mem_append, List.mem_singleton] at ht
-  rcases ht with ht | rfl
-  · simp only [IpcHub.FlvCacheM.FCache.headers, List.mem_map] at ht
-    obtain ⟨t', _, rfl⟩ := ht
-    simp [IpcHub.FlvCacheM.toTag, IpcHub.FlvCacheM.restamp, IpcHub.FlvCacheM.FCache.initTs, hg]
-  · rfl
+    FLV stream, the first tag its writer is handed becomes the time base and every replayed header
+    tag and the first replayed media tag go on the wire with timestamp 0 — with a cached GOP (the
+    base is the GOP's first tag) and without (the base is the stream's current time, the latest
+    media tag's timestamp); a client that is replayed nothing gets its first live tag with 0.
+    (The cache side of this statement is `c02_flv_timeline_starts_at_zero`.) -/
+theorem c08_joiner_timeline_zero (gop : Bool) (tags : List IpcHub.FlvCacheM.FTag) :
+    let c := IpcHub.FlvCacheM.cacheAfter gop tags
+    let w1 : Writer := { delta := UInt32.ofNat c.initTs, started := true }
+    (c.pushTo ≠ [] → ∃ first more, c.pushTo.map IpcHub.FlvCacheM.toTag = first :: more ∧
+        Writer.next genCfg {} first = w1) ∧
+    (∀ t ∈ c.headers ++ c.gop.head?.toList, IpcHub.FlvCacheM.wireTs genCfg w1 (IpcHub.FlvCacheM.toTag t) = 0) ∧
+    (∀ live : Tag, IpcHub.FlvCacheM.wireTs genCfg (Writer.next genCfg {} live) live = 0) :=
+  IpcHub.FlvCacheM.joiner_timeline genCfg (by decide) gop tags
 
 end IpcHub.Props.C08
